@@ -34,6 +34,9 @@ public:
         t["depth"] = (int)mk2.geti("depth") + w.range(0, 2);
         std::string ty = w.pick(depthTypes()); t["type"] = ty; t["aniso"] = genAniso(w, d, ty);
         p["target"] = t;
+        // sparse targets: a seeded part of the target points is never delivered, so the delivered set is not parent-closed
+        // ("exactly the points of the target set that form an admissible grid"); 0 = the complete target
+        p["thin"] = w.pick<double>({0.0, 0.0, 0.0, 0.1, 0.25, 0.5}); p["thin_seed"] = (long long)(w.next() >> 40);
         p["order"] = s.pick<std::string>({"shuffle", "shuffle", "shuffle", "sorted", "reverse"});
         p["perm_seed"] = (long long)(s.next() >> 2);
         Json ev = Json::array();
@@ -93,7 +96,12 @@ public:
         TasmanianSparseGrid twin(g);
         // the sample stream
         std::vector<std::vector<double>> samples;
-        for (auto &kv : tset) if (kv.second == 0) samples.push_back(kv.first.x);
+        double thin = p.getd("thin", 0.0); bool thinned = false;
+        for (auto &kv : tset) if (kv.second == 0) {
+            if (thin > 0) { Hash h; h.i(p.geti("thin_seed", 1)); for (double v : kv.first.x) h.d(v); if ((double)(h.h >> 11) * (1.0 / 9007199254740992.0) < thin) { thinned = true; continue; } }
+            samples.push_back(kv.first.x);
+        }
+        if (thinned) st.inc("reach.sparse_target_not_parent_closed");
         std::string order = p.gets("order", "shuffle");
         if (order == "shuffle") { Rng r((uint64_t)p.geti("perm_seed", 1)); r.shuffle(samples); }
         else if (order == "reverse") std::reverse(samples.begin(), samples.end());
@@ -172,8 +180,22 @@ public:
             if (!px.empty()) twin.loadConstructedPoints(px, py);
         }
         std::string path = usedSingle && !usedBatch ? "single" : usedBatch && !usedSingle ? "batch" : "mixed";
+        if (thinned) path += "-sparse"; // sparse (not parent-closed) targets are their own signature class
         for (int phase = 0; phase < 2; phase++) {
             const char *when = phase == 0 ? "after the last delivery" : "after finishConstruction";
+            if (thinned) { // the admissible part of a sparse target is defined by the one-batch twin
+                if (g.getNumLoaded() != twin.getNumLoaded()) {
+                    std::vector<double> a = g.getLoadedPoints(), b = twin.getLoadedPoints(); std::map<Key, int> sa, sb; std::string diff;
+                    for (size_t i = 0; i + d <= a.size(); i += d) sa[Key{std::vector<double>(a.begin() + i, a.begin() + i + d)}] = 1;
+                    for (size_t i = 0; i + d <= b.size(); i += d) sb[Key{std::vector<double>(b.begin() + i, b.begin() + i + d)}] = 1;
+                    for (auto &kv : sa) if (!sb.count(kv.first)) diff += " +" + fmtPoint(kv.first.x.data(), d);
+                    for (auto &kv : sb) if (!sa.count(kv.first)) diff += " -" + fmtPoint(kv.first.x.data(), d);
+                    std::string all; for (auto &x : samples) all += fmtPoint(x.data(), d);
+                    out.fail("missing-points", base + path + "/missing-points", std::string(when) + ": sparse target, " + std::to_string(g.getNumLoaded()) + " points are loaded, the twin loaded in one batch holds " + std::to_string(twin.getNumLoaded()) + " (" + std::to_string(delivered.size()) + " delivered); difference to the twin:" + diff.substr(0, 300) + "; delivery order " + all.substr(0, 600));
+                    return out;
+                }
+                if (g.getNumLoaded() < (int)delivered.size()) st.inc("reach.sparse_target_left_parked_samples");
+            } else
             if ((size_t)g.getNumLoaded() != total) {
                 // which target point is missing?
                 std::vector<double> lp = g.getLoadedPoints(); std::map<Key, int> ls;
@@ -182,9 +204,10 @@ public:
                 out.fail("missing-points", base + path + "/missing-points", std::string(when) + ": " + std::to_string(g.getNumLoaded()) + " of the " + std::to_string(total) + " target points are loaded (twin loaded in one batch: " + std::to_string(twin.getNumLoaded()) + "); first missing " + miss);
                 return out;
             }
-            if ((size_t)twin.getNumLoaded() != total) { out.fail("missing-points", base + "batch-twin/missing-points", std::string(when) + ": the one-batch twin holds " + std::to_string(twin.getNumLoaded()) + " of " + std::to_string(total) + " target points"); return out; }
+            if (!thinned && (size_t)twin.getNumLoaded() != total) { out.fail("missing-points", base + "batch-twin/missing-points", std::string(when) + ": the one-batch twin holds " + std::to_string(twin.getNumLoaded()) + " of " + std::to_string(total) + " target points"); return out; }
             if (!checkInvariants(when)) return out;
             // surrogate equals the twin's
+            if (g.getNumLoaded() == 0) { out.trace.i(0); if (phase == 0) { g.finishConstruction(); twin.finishConstruction(); } continue; }
             std::vector<double> X = probePoints(g, 6), y1, y2;
             { std::vector<double> lp = g.getLoadedPoints(); size_t n = lp.size() / d; for (size_t k = 0; k < std::min<size_t>(n, 12); k++) { size_t i = (k * 7919u) % n; X.insert(X.end(), lp.begin() + i * d, lp.begin() + (i + 1) * d); } }
             g.evaluateBatch(X, y1); twin.evaluateBatch(X, y2);
